@@ -122,8 +122,9 @@ def exitKindViolation (r : Obs) : Option String :=
 def sfViolations (h : List Obs) : List (Nat × String) :=
   exclusiveViolations h
   ++ h.filterMap (fun r => (exitKindViolation r).map (r.line, ·))
-  ++ h.filterMap (fun r => if r.panicked then none else (noStaleViolation h r).map (r.line, ·))
-  ++ h.filterMap (fun r => if r.panicked then none else (freshViolation r).map (r.line, ·))
+  -- (a call that panicked or never returned has no result to judge: `panic:` / `stuck:` report those)
+  ++ h.filterMap (fun r => if r.panicked || r.stuck then none else (noStaleViolation h r).map (r.line, ·))
+  ++ h.filterMap (fun r => if r.panicked || r.stuck then none else (freshViolation r).map (r.line, ·))
   ++ h.filterMap (fun r => if r.runs > 1 then some (r.line, s!"exclusive: function of call {r.id} executed {r.runs} times") else none)
   ++ h.filterMap (fun r => (stuckViolation r).map (r.line, ·))
   ++ h.filterMap (fun r => (panicViolation r).map (r.line, ·))
@@ -131,7 +132,7 @@ def sfViolations (h : List Obs) : List (Nat × String) :=
 /-- LockedCalls: own function exactly once, own result. -/
 def ownFnViolation (r : Obs) : Option String :=
   if r.runs ≠ 1 then some s!"own-fn-once: function of call {r.id} (key {r.key}) executed {r.runs} times"
-  else if r.panicked then none    -- the caller's own function panicked (see `panicViolation`): nothing is returned
+  else if r.panicked || r.stuck then none    -- the caller's own function panicked (`panicViolation`) / the call never returned (`stuckViolation`): nothing is returned
   else if r.val ≠ (if r.nilv then none else some r.id) then some s!"own-fn-once: call {r.id} returned the value of {r.val}"
   else if r.err ≠ (if r.serr then some r.id else none) then some s!"own-fn-once: call {r.id} returned the error of {r.err}"
   else none
@@ -210,7 +211,7 @@ def rmViolations (nilJoin : Bool) (inj : List (Nat × Nat)) (h : List Obs) : Lis
   exclusiveViolations h
   ++ h.filterMap (fun r => (exitKindViolation r).map (r.line, ·))
   ++ rmKeyViolations h
-  ++ h.filterMap (fun r => if r.panicked then none else (rmCallViolation nilJoin inj h r).map (r.line, ·))
+  ++ h.filterMap (fun r => if r.panicked || r.stuck then none else (rmCallViolation nilJoin inj h r).map (r.line, ·))
   ++ h.filterMap (fun r => if r.runs > 1 then some (r.line, s!"rm: create of call {r.id} executed {r.runs} times") else none)
   ++ h.filterMap (fun r => (stuckViolation r).map (r.line, ·))
   ++ h.filterMap (fun r => (rmPanicViolation h r).map (r.line, ·))
